@@ -8,6 +8,7 @@ mod replay;
 mod rng;
 mod run;
 mod snap;
+mod synth;
 mod cppexport;
 mod targets;
 
